@@ -985,7 +985,7 @@ func runRows() {
 			}
 		}
 	}
-	chk.Range("all row decoders on valid symbol rows of the nine 1-D writers at scales 1..3: pristine, every single run lengthened/shortened by one pixel, every prefix and suffix truncation, reversed", len(sjs),
+	chk.Range("all row decoders on valid symbol rows of the nine 1-D writers at scales 1..3: pristine, every single run lengthened/shortened by one pixel, every prefix and suffix truncation, reversed; at scale 1 every cut at a run boundary x 0..63 white pixels in front / behind (every width residue modulo 64)", len(sjs),
 		func(i int) string { return fmt.Sprint(oneDWriters[sjs[i].w].name, sjs[i]) },
 		func(l *mc.Local, i int) {
 			j := sjs[i]
@@ -1019,6 +1019,26 @@ func runRows() {
 			for cut := 1; cut < len(base); cut += step {
 				decodeRowAll(l, base[:cut], fmt.Sprint("prefix ", cut), "*")
 				decodeRowAll(l, base[cut:], fmt.Sprint("suffix ", cut), "*")
+			}
+			// the row ends (or begins) exactly at an element boundary of the symbol AND its width takes
+			// every residue modulo 64: cut at every run boundary, with 0..63 white pixels added in
+			// front (prefixes) or behind (suffixes); read by the symbology's own decoders
+			if j.scale == 1 {
+				pos := 0
+				for _, n := range rs {
+					pos += n
+					if pos >= len(base) {
+						break
+					}
+					for pad := 0; pad < 64; pad++ {
+						if chk.Quick() && (pad+pos)%2 == 1 && pad%32 > 1 && pad%32 < 31 {
+							continue
+						}
+						white := make([]bool, pad)
+						decodeRowAll(l, append(append([]bool{}, white...), base[:pos]...), fmt.Sprint("prefix up to run boundary ", pos, " behind ", pad, " white pixels"), w.name)
+						decodeRowAll(l, append(append([]bool{}, base[pos:]...), white...), fmt.Sprint("suffix from run boundary ", pos, " followed by ", pad, " white pixels"), w.name)
+					}
+				}
 			}
 		})
 	// Code 39: every string of length <= 2 (quick) / 3 over the 43-character alphabet, written by the
